@@ -76,6 +76,39 @@ func H_C18_Limit1() {
 	})
 }
 
+// H_C18_Limit1Small: limit 1; the main thread enqueues job 0, then two producers enqueue one
+// job each, one of them waits for idle (quick tier).
+func H_C18_Limit1Small() {
+	var p queueProbe
+	q := conc.NewConcurrentQueue(1)
+	inv := func(queued, running int) {
+		vrt.Assert(queued >= 0 && running >= 0 && running <= 1, "queue-counts-range")
+		if queued > 0 {
+			vrt.Assert(running == 1, "queued-but-not-all-workers-running")
+		}
+	}
+	inv(q.Enqueue(p.job(0)))
+	vrt.Go("prod1", func() {
+		inv(q.Enqueue(p.job(1)))
+		err := q.WaitIdle(context.Background(), nil)
+		vrt.Assert(err == nil, "waitidle-error")
+		var r0, r1 int
+		vrt.Atomic(func() { r0, r1 = p.runs[0], p.runs[1] })
+		vrt.Assert(r0 == 1 && r1 == 1, "waitidle-returned-before-jobs-finished")
+	})
+	vrt.Go("prod2", func() {
+		inv(q.Enqueue(p.job(2)))
+	})
+	vrt.AtQuiescence(func() {
+		vrt.Assert(p.maxActive <= 1, "queue-limit-exceeded")
+		for i := 0; i < 3; i++ {
+			vrt.Assert(p.runs[i] == 1, "job-not-run-exactly-once")
+		}
+		vrt.Assert(p.order[0] == 0, "limit1-order")
+		inv(q.Enqueue())
+	})
+}
+
 // H_C18_Limit2: limit 2 with three jobs from two producers and a WatchState observer.
 func H_C18_Limit2() {
 	var p queueProbe
